@@ -9,6 +9,7 @@ import (
 	"sort"
 	"time"
 
+	"github.com/prometheus/client_golang/prometheus"
 	"github.com/thanos-io/thanos/pkg/receive"
 	"github.com/thanos-io/thanos/zzverif/common"
 	"github.com/thanos-io/thanos/zzverif/hashringutil"
@@ -28,6 +29,9 @@ type input struct {
 	RF        uint64     `json:"rf"`
 	// Raw: print the real 64-bit hash values instead of their ranks.
 	Raw bool `json:"raw,omitempty"`
+	// Via "config": a whole configuration file and the default algorithm.
+	Config    string `json:"config,omitempty"`
+	Algorithm string `json:"algorithm,omitempty"`
 }
 
 func facts(repo string, w io.Writer) error {
@@ -64,6 +68,24 @@ func run(raw json.RawMessage) (common.Case, error) {
 		return common.Case{}, err
 	}
 	var c common.Case
+	if in.Via == "config" {
+		cfg, err := receive.ParseConfig([]byte(in.Config))
+		var h receive.Hashring
+		if err == nil {
+			h, err = receive.NewMultiHashring(receive.HashringAlgorithm(in.Algorithm), in.RF, cfg, prometheus.NewRegistry())
+		}
+		if err == nil {
+			h.Close()
+		}
+		c.Coq = common.App("CConfig", common.Bool(err == nil))
+		c.Class = "config/ok"
+		c.Obs = "ring"
+		if err != nil {
+			c.Class, c.Obs = "config/err", "error"
+		}
+		c.Nontrivial = true
+		return c, nil
+	}
 	eps := make([]receive.Endpoint, len(in.Endpoints))
 	for i, e := range in.Endpoints {
 		eps[i] = receive.Endpoint{Address: e.Addr, AZ: e.AZ}
@@ -180,10 +202,73 @@ func genLayout(r *rand.Rand, maxNodes int) []endpoint {
 	return eps
 }
 
+// genConfig renders a configuration file with several hashrings.
+func genConfig(r *rand.Rand) (string, string, uint64) {
+	type ep struct {
+		Address string `json:"address"`
+		AZ      string `json:"az,omitempty"`
+	}
+	type ssc struct {
+		ShardSize int  `json:"shard_size"`
+		Disabled  bool `json:"zone_awareness_disabled"`
+	}
+	type ring struct {
+		Hashring  string   `json:"hashring,omitempty"`
+		Tenants   []string `json:"tenants,omitempty"`
+		Matcher   string   `json:"tenant_matcher_type,omitempty"`
+		Endpoints []any    `json:"endpoints"`
+		Algorithm string   `json:"algorithm,omitempty"`
+		SS        *ssc     `json:"shuffle_sharding_config,omitempty"`
+	}
+	var rings []ring
+	maxN := 1
+	for k := int(common.Between(r, 1, 3)); k > 0; k-- {
+		var rg ring
+		rg.Hashring = fmt.Sprintf("ring-%d", k)
+		rg.Algorithm = common.Pick(r, "", "", "ketama", "hashmod", "bogus")
+		withAZ := r.Intn(3) == 0
+		nn := int(common.Between(r, 1, 5))
+		if nn > maxN {
+			maxN = nn
+		}
+		for j := 0; j < nn; j++ {
+			addr := fmt.Sprintf("r%d-n%d:10901", k, j)
+			switch {
+			case withAZ:
+				rg.Endpoints = append(rg.Endpoints, ep{Address: addr, AZ: common.Pick(r, "a", "b", "a")})
+			case r.Intn(2) == 0:
+				rg.Endpoints = append(rg.Endpoints, addr) // endpoints may be plain strings
+			default:
+				rg.Endpoints = append(rg.Endpoints, ep{Address: addr})
+			}
+		}
+		if r.Intn(2) == 0 {
+			rg.Tenants = []string{common.Pick(r, "team-a", "team-*", "[bad")}
+			rg.Matcher = common.Pick(r, "", "exact", "glob")
+		}
+		if r.Intn(4) == 0 {
+			rg.SS = &ssc{ShardSize: int(common.Between(r, 1, int64(nn+1))), Disabled: r.Intn(2) == 0}
+		}
+		rings = append(rings, rg)
+	}
+	b, _ := json.Marshal(rings)
+	cfg := string(b)
+	if r.Intn(15) == 0 {
+		cfg = common.Pick(r, "", "[]", "{", `[{"endpoints": [{"az": "a"}]}]`) // empty / malformed / endpoint without address
+	}
+	return cfg, common.Pick(r, "ketama", "hashmod", ""), uint64(common.Between(r, 1, int64(maxN)))
+}
+
 func gen(r *rand.Rand, tier string, n int) []any {
 	var out []any
 	for i := 0; i < n; i++ {
 		var in input
+		if r.Intn(8) == 0 {
+			in.Via = "config"
+			in.Config, in.Algorithm, in.RF = genConfig(r)
+			out = append(out, in)
+			continue
+		}
 		full := r.Intn(250) == 0
 		if full {
 			in.Via = "multi"
